@@ -1,7 +1,10 @@
 use super::job_queue::*;
 use super::queue_state::*;
 
+#[cfg(not(feature = "verif-hooks"))]
 use std::sync::*;
+#[cfg(feature = "verif-hooks")]
+use crate::verif::sync::*;
 use std::thread::{Thread};
 use futures::task::{ArcWake};
 
@@ -29,6 +32,8 @@ impl ArcWake for WakeThread {
         }
 
         // Wake the thread
+        #[cfg(feature = "verif-hooks")]
+        crate::verif::point_kind_here(crate::verif::PointKind::BeforeUnpark);
         thread.unpark();
     }
 }
